@@ -34,7 +34,8 @@ structure FiberP (α : Type) where
   ramanGain : Option α
   dsl : Option α
 
-/-- `EdfaOperational` + `type_variety` (`""` = to be selected by auto-design) -/
+/-- `EdfaOperational` + `type_variety` (`""` = to be selected by auto-design); `multi` marks a `Multiband_amplifier`
+(one amplifier per design band; its per-band settings are outside this model) -/
 structure EdfaP (α : Type) where
   variety : String
   gain : Option α
@@ -42,6 +43,7 @@ structure EdfaP (α : Type) where
   outVoa : Option α
   inVoa : Option α
   tilt : Option α
+  multi : Bool := false
 
 inductive Elem (α : Type)
   | fiber (uid : String) (p : FiberP α)
@@ -65,16 +67,29 @@ def Elem.isEdfa {α : Type} : Elem α → Bool
   | .edfa _ _ => true
   | _ => false
 
+/-- a `Multiband_amplifier` -/
+def Elem.isMulti {α : Type} : Elem α → Bool
+  | .edfa _ p => p.multi
+  | _ => false
+
+/-- a single-band `Edfa` -/
+def Elem.isSingle {α : Type} : Elem α → Bool
+  | .edfa _ p => !p.multi
+  | _ => false
+
 def Elem.isRaman {α : Type} : Elem α → Bool
   | .fiber _ p => p.raman
   | _ => false
 
-/-- the amplifier `add_roadm_booster` / `add_roadm_preamp` / `add_inline_amplifier` create:
-`operational={'gain_target': None, 'tilt_target': 0}`, `EdfaParams.default_values` (type_variety `''`);
-`EdfaOperational` defaults `in_voa` to 0 -/
-def newEdfa {α : Type} [NatCast α] : EdfaP α :=
+/-- the amplifier `add_roadm_booster` / `add_roadm_preamp` / `add_inline_amplifier` create: an `Edfa` with
+`operational={'gain_target': None, 'tilt_target': 0}`, `EdfaParams.default_values` (type_variety `''`;
+`EdfaOperational` defaults `in_voa` to 0) — or, when `multi`, a `Multiband_amplifier` with `amplifiers=[]` and
+`MultiBandParams.default_values`; both get the same uid -/
+def newAmp {α : Type} [NatCast α] (multi : Bool) : EdfaP α :=
   { variety := "", gain := none, deltaP := none, outVoa := none, inVoa := some ((0:Nat) : α),
-    tilt := some ((0:Nat) : α) }
+    tilt := some ((0:Nat) : α), multi := multi }
+
+def newEdfa {α : Type} [NatCast α] : EdfaP α := newAmp false
 
 def splitName (uid : String) (k n : Nat) : String := uid ++ "_(" ++ toString k ++ "/" ++ toString n ++ ")"
 def inlineName (uid : String) : String := "Edfa_" ++ uid
@@ -188,23 +203,71 @@ def splitLine (c : SplitCfg α) (l : List (Elem α)) : List (Elem α) := l.flatM
 
 /-! ### add_roadm_preamp / add_roadm_booster / add_inline_amplifier -/
 
-/-- a preamp is inserted iff the chain ends at a ROADM and its last element is a Fiber (not Fused / Edfa / Transceiver) -/
-def addPreamp (dst : String) (dk : EndKind) (l : List (Elem α)) : List (Elem α) :=
+/-- `check_oms_single_type` on a stretch of line: does it hold a Multiband_amplifier / a single-band Edfa? -/
+def hasMulti (l : List (Elem α)) : Bool := l.any Elem.isMulti
+def hasSingle (l : List (Elem α)) : Bool := l.any Elem.isSingle
+
+/-- a preamp is inserted iff the chain ends at a ROADM and its last element is a Fiber (not Fused / amplifier /
+Transceiver); `multi` = it is a Multiband_amplifier -/
+def addPreamp (dst : String) (dk : EndKind) (multi : Bool) (l : List (Elem α)) : List (Elem α) :=
   match dk, l.getLast? with
-  | .roadm, some (.fiber u _) => l ++ [.edfa (preampName dst u) newEdfa]
+  | .roadm, some (.fiber u _) => l ++ [.edfa (preampName dst u) (newAmp multi)]
   | _, _ => l
 
-def addBooster (src : String) (sk : EndKind) (l : List (Elem α)) : List (Elem α) :=
+def addBooster (src : String) (sk : EndKind) (multi : Bool) (l : List (Elem α)) : List (Elem α) :=
   match sk, l with
-  | .roadm, .fiber u p :: rest => .edfa (boosterName src u) newEdfa :: .fiber u p :: rest
+  | .roadm, .fiber u p :: rest => .edfa (boosterName src u) (newAmp multi) :: .fiber u p :: rest
   | _, _ => l
 
-def addInline : List (Elem α) → List (Elem α)
+/-- `add_inline_amplifier`: an amplifier of kind `multi` (the kind of the OMS, `omsKind`) between two fibres -/
+def addInline (multi : Bool) : List (Elem α) → List (Elem α)
   | [] => []
   | x :: rest =>
     match x, rest with
-    | .fiber u _, .fiber _ _ :: _ => x :: .edfa (inlineName u) newEdfa :: addInline rest
-    | _, _ => x :: addInline rest
+    | .fiber u _, .fiber _ _ :: _ => x :: .edfa (inlineName u) (newAmp multi) :: addInline multi rest
+    | _, _ => x :: addInline multi rest
+
+/-- the unrepaired `add_inline_amplifier`: a Multiband_amplifier iff the OMS DOWNSTREAM of the fibre already held one -/
+def addInlineOld : List (Elem α) → List (Elem α)
+  | [] => []
+  | x :: rest =>
+    match x, rest with
+    | .fiber u _, .fiber _ _ :: _ => x :: .edfa (inlineName u) (newAmp (hasMulti rest)) :: addInlineOld rest
+    | _, _ => x :: addInlineOld rest
+
+/-- will `add_roadm_preamp` / `add_roadm_booster` insert something on this (split) line? -/
+def preampInserted (dk : EndKind) (l : List (Elem α)) : Bool :=
+  match dk, l.getLast? with
+  | .roadm, some (.fiber _ _) => true
+  | _, _ => false
+
+def boosterInserted (sk : EndKind) (l : List (Elem α)) : Bool :=
+  match sk, l with
+  | .roadm, .fiber _ _ :: _ => true
+  | _, _ => false
+
+/-- `_oms_needs_multiband`: the kind of every amplifier auto-design inserts on an OMS — Multiband iff the OMS already holds
+a Multiband_amplifier, or holds no Edfa and starts at a ROADM with more than one design band (the bands of that
+degree if the user defined them, else the ROADM's). The same for booster, preamp and in-line amplifiers, whatever
+the order of insertion (repaired behaviour). -/
+def omsKind (sk : EndKind) (bands : Nat) (oms : List (Elem α)) : Bool :=
+  hasMulti oms || (!hasSingle oms && sk == .roadm && decide (1 < bands))
+
+/-- the unrepaired rules: the booster looked at `roadm.design_bands`, the preamp only at the amplifiers already in the OMS -/
+def boosterRuleOld (bands : Nat) (oms : List (Elem α)) : Bool := hasMulti oms || (!hasSingle oms && decide (1 < bands))
+def preampRuleOld (oms : List (Elem α)) : Bool := hasMulti oms
+
+/-- the unrepaired kinds of booster and preamp of one line: the ROADMs were visited in node order, each adding its
+preamps and then its boosters, so the result depended on which end of the line was visited first (`dstFirst`) -/
+def endAmpKindsOld (sk dk : EndKind) (bands : Nat) (dstFirst : Bool) (l : List (Elem α)) : Bool × Bool :=
+  if dstFirst then
+    let pm := preampRuleOld l
+    let seen := if preampInserted dk l then l ++ [.edfa "" (newAmp pm)] else l
+    (boosterRuleOld bands seen, pm)
+  else
+    let bm := boosterRuleOld bands l
+    let seen := if boosterInserted sk l then .edfa "" (newAmp bm) :: l else l
+    (bm, preampRuleOld seen)
 
 structure Chain (α : Type) where
   src : String
@@ -212,11 +275,30 @@ structure Chain (α : Type) where
   line : List (Elem α)
   dst : String
   dstKind : EndKind
+  /-- number of design bands of this degree of the source ROADM as given by the user (`per_degree_design_bands` of the
+  degree if defined, else `design_bands`) -/
+  srcBands : Nat := 1
+  /-- the destination ROADM comes before the source ROADM in `network.nodes()` (irrelevant since the repair) -/
+  dstFirst : Bool := false
 
-/-- `add_missing_elements_in_network` on one chain: split every fibre, then preamp/booster of the end ROADMs,
-then the inline amplifiers -/
+/-- `add_missing_elements_in_network` on one chain: split every fibre, then preamp/booster of the end ROADMs, then the
+inline amplifiers, all of the kind of the OMS (`omsKind`) -/
 def addMissingLine (c : SplitCfg α) (ch : Chain α) : List (Elem α) :=
-  addInline (addBooster ch.src ch.srcKind (addPreamp ch.dst ch.dstKind (splitLine c ch.line)))
+  let s := splitLine c ch.line
+  let m := omsKind ch.srcKind ch.srcBands s
+  addInline m (addBooster ch.src ch.srcKind m (addPreamp ch.dst ch.dstKind m s))
+
+/-- the unrepaired completion (kinds by `endAmpKindsOld` / `addInlineOld`) -/
+def addMissingLineOld (c : SplitCfg α) (ch : Chain α) : List (Elem α) :=
+  let s := splitLine c ch.line
+  let k := endAmpKindsOld ch.srcKind ch.dstKind ch.srcBands ch.dstFirst s
+  addInlineOld (addBooster ch.src ch.srcKind k.1 (addPreamp ch.dst ch.dstKind k.2 s))
+
+/-- single-band and multiband amplifiers in one OMS: `check_oms_single_type` raises NetworkTopologyError; an OMS of
+single-band amplifiers leaving a ROADM with several design bands is rejected by `set_per_degree_design_band`
+("inconsistent design multiband/single band definition", NetworkTopologyError as well) -/
+def kindsRaise (bands : Nat) (l : List (Elem α)) : Bool :=
+  (hasMulti l && hasSingle l) || (decide (1 < bands) && hasSingle l && !hasMulti l)
 
 def addMissing (c : SplitCfg α) (ch : Chain α) : Chain α := { ch with line := addMissingLine c ch }
 
